@@ -65,8 +65,9 @@ import (
 type lockedStore struct {
 	mu sync.Mutex
 	st *store
-	// a slow store: with probability delayPermille/1000 LoadSession and DeleteSession wait up to delayMaxUs
-	// microseconds of real time before they touch the records (before taking the store's mutex)
+	// a slow store: with probability delayPermille/1000 LoadSession, SaveSession and DeleteSession wait up to delayMaxUs
+	// microseconds of real time before they touch the records (before taking the store's mutex), and LoadSession
+	// again before it returns
 	delayPermille, delayMaxUs int
 }
 
@@ -92,6 +93,9 @@ func (l *lockedStore) trim() { l.st.events = l.st.events[:0] }
 
 func (l *lockedStore) LoadSession(id string) (*sessions.Session, error) {
 	l.delay()
+	// the answer of a slow store also takes its time to arrive: a window between "the record was read" and "the caller
+	// has it", in which a delete or a save of the same ID by another caller must not be able to slip in unnoticed
+	defer l.delay()
 	l.mu.Lock()
 	defer l.mu.Unlock()
 	defer l.trim()
@@ -99,10 +103,34 @@ func (l *lockedStore) LoadSession(id string) (*sessions.Session, error) {
 }
 
 func (l *lockedStore) SaveSession(id string, s *sessions.Session) error {
+	l.delay()
 	l.mu.Lock()
 	defer l.mu.Unlock()
 	defer l.trim()
 	return l.st.SaveSession(id, s)
+}
+
+// hasRecord reports whether the store holds any record under id.
+func (l *lockedStore) hasRecord(id string) bool {
+	l.mu.Lock()
+	defer l.mu.Unlock()
+	_, ok := l.st.recs[id]
+	return ok
+}
+
+// stored returns the decoded record under id (nil if there is none or it does not decode).
+func (l *lockedStore) stored(id string) *sessions.Session {
+	l.mu.Lock()
+	defer l.mu.Unlock()
+	b, ok := l.st.recs[id]
+	if !ok {
+		return nil
+	}
+	s, err := l.st.decodeQuiet(b)
+	if err != nil {
+		return nil
+	}
+	return s
 }
 
 func (l *lockedStore) DeleteSession(id string) error {
@@ -704,6 +732,10 @@ func (h *concH) directed() {
 		})
 	case "destroy-race":
 		h.spawn(g0, func() { h.destroyRace(g0) })
+	case "cleanup-race":
+		h.spawn(g0, func() { h.cleanupRace(g0) })
+	case "load-race":
+		h.spawn(g0, func() { h.loadRace(g0) })
 	case "id-destroy":
 		// per round: two requests hold the session; one destroys it while the other changes its ID.
 		g1, g2 := h.newGor(), h.newGor()
@@ -767,6 +799,8 @@ func (h *concH) destroyRace(g0 *cgor) {
 	}
 	ender := h.newGor()
 	ender.done = 1
+	purger := h.newGor()
+	purger.done = 1
 	for it := 0; it < h.cfg.iters && !h.stopped(); it++ {
 		// ---- setup (sequential)
 		variant := []string{"destroy", "destroy", "destroy", "agent", "agent", "expiry"}[g0.rnd.Intn(6)]
@@ -831,6 +865,19 @@ func (h *concH) destroyRace(g0 *cgor) {
 				}
 			}()
 		}
+		if g0.rnd.Intn(2) == 0 {
+			// a PurgeSessions in the middle of it all: its flushes must not bring the ended session back either
+			wg.Add(1)
+			go func() {
+				defer wg.Done()
+				<-start
+				for n := 0; n < 2; n++ {
+					time.Sleep(time.Duration(purger.rnd.Intn(400)) * time.Microsecond)
+					purger.safe("PurgeSessions", func() { sessions.PurgeSessions() })
+					purger.stat["purges"]++
+				}
+			}()
+		}
 		close(start)
 		wg.Wait()
 		sessions.SessionExpiry = savedExpiry
@@ -856,6 +903,212 @@ func (h *concH) destroyRace(g0 *cgor) {
 				g0.safe("Get", func() { v, u = after.Get("secret", nil), after.User() })
 				bad("Start with id#%d of %d returned a session after the end: secret=%s user=%s", n, len(ids)-1, valStr(v), renderUser(u, false))
 			}
+		}
+	}
+}
+
+// cleanupRace (property C05 under concurrency): "…and nothing afterwards". Per iteration a session's ID is replaced once or
+// twice with a grace period of a few milliseconds; the cache is purged so that the records of the replaced IDs have to
+// be loaded; `inflight` goroutines keep presenting the replaced IDs to Start and one goroutine calls PurgeSessions
+// while the package's clean-up goroutines delete the replaced IDs at the end of their grace periods. When every
+// clean-up has run and every request has returned, sequentially: a replaced ID is neither cached nor stored and a
+// request presenting it gets no session. (While the race lasts a request may legitimately be served: it started inside
+// the grace period.)
+func (h *concH) cleanupRace(g0 *cgor) {
+	request := func(g *cgor, cookie string, create bool) (*sessions.Session, *respWriter, *http.Request) {
+		req, resp := newReq(0, cookie)
+		var s *sessions.Session
+		g.safe("Start", func() { s, _ = sessions.Start(resp, req, create) })
+		g.stat["requests"]++
+		return s, resp, req
+	}
+	hammers := make([]*cgor, h.cfg.inflight)
+	for i := range hammers {
+		hammers[i] = h.newGor()
+		hammers[i].done = 1
+	}
+	purger := h.newGor()
+	purger.done = 1
+	savedGrace := sessions.SessionIDGracePeriod
+	defer func() { sessions.SessionIDGracePeriod = savedGrace }()
+	for it := 0; it < h.cfg.iters && !h.stopped(); it++ {
+		grace := time.Duration(6+g0.rnd.Intn(10)) * time.Millisecond
+		sessions.SessionIDGracePeriod = grace
+		_, resp, _ := request(g0, "", true)
+		id, _, _ := cookieOf(resp)
+		s, _, _ := request(g0, id, false)
+		if s == nil || id == "" {
+			h.extra = append(h.extra, fmt.Sprintf("panic %d cleanup-race: setup failed in iteration %d", g0.id, it))
+			continue
+		}
+		g0.safe("Set", func() { s.Set("marker", fmt.Sprintf("live-%d", it)) })
+		ids := []string{id}
+		k := 1 + g0.rnd.Intn(2)
+		for j := 0; j < k; j++ {
+			r := &respWriter{h: http.Header{}}
+			g0.safe("RegenerateID", func() { s.RegenerateID(r) })
+			if v, set, _ := cookieOf(r); set {
+				ids = append(ids, v)
+			}
+		}
+		last := time.Now()
+		replaced := ids[:len(ids)-1]
+		setup := fmt.Sprintf("k=%d,grace=%dms", len(replaced), grace/time.Millisecond)
+		if g0.rnd.Intn(3) > 0 {
+			g0.safe("PurgeSessions", func() { sessions.PurgeSessions() })
+		}
+		until := last.Add(grace + 4*time.Millisecond)
+		var wg sync.WaitGroup
+		wg.Add(1 + len(hammers))
+		for _, g := range hammers {
+			g := g
+			go func() {
+				defer wg.Done()
+				for time.Now().Before(until) && !h.stopped() {
+					if hs, _, _ := request(g, replaced[g.rnd.Intn(len(replaced))], false); hs != nil {
+						g.stat["hammer_got_session"]++
+					} else {
+						g.stat["hammer_got_nothing"]++
+					}
+					time.Sleep(time.Duration(g.rnd.Intn(300)) * time.Microsecond)
+				}
+			}()
+		}
+		go func() {
+			defer wg.Done()
+			for time.Now().Before(until) && !h.stopped() {
+				time.Sleep(time.Duration(500+purger.rnd.Intn(2500)) * time.Microsecond)
+				purger.safe("PurgeSessions", func() { sessions.PurgeSessions() })
+				purger.stat["purges"]++
+			}
+		}()
+		wg.Wait()
+		// every clean-up goroutine has slept its grace period by now; give their deletes (slow store) time to finish
+		if d := time.Until(last.Add(grace + 25*time.Millisecond)); d > 0 {
+			time.Sleep(d)
+		}
+		g0.stat["cleanup_iterations"]++
+		bad := func(format string, args ...interface{}) {
+			h.extra = append(h.extra, fmt.Sprintf("graceover %d %s ", it, setup)+fmt.Sprintf(format, args...))
+			g0.stat["graceover"]++
+		}
+		for n, x := range replaced {
+			if sessions.VerifCached(x) != nil {
+				bad("cache still holds replaced id#%d of %d after its clean-up", n, len(replaced))
+			}
+			if h.store.hasRecord(x) {
+				bad("store still holds a record under replaced id#%d of %d after its clean-up", n, len(replaced))
+			}
+		}
+		for n, x := range replaced {
+			if after, _, _ := request(g0, x, false); after != nil {
+				var v interface{}
+				g0.safe("Get", func() { v = after.Get("marker", nil) })
+				bad("Start with replaced id#%d of %d returned a session after grace period and clean-up: marker=%s", n, len(replaced), valStr(v))
+			}
+		}
+		// end the session so that the cache stays small
+		if cur, resp, req := request(g0, ids[len(ids)-1], false); cur != nil {
+			g0.safe("Destroy", func() { cur.Destroy(resp, req) })
+		}
+	}
+}
+
+// loadRace (properties C09/C12/C01 under concurrency): one object per cached session. Per iteration a session with a user
+// and one replaced ID in its grace period is pushed out of the cache (PurgeSessions); then, concurrently, one request
+// presents its current ID and writes a value, one presents the replaced ID (Start follows the reference to the same
+// session) and writes another value, and one goroutine calls RefreshUser / LogOut(userID) for its user. The cache is large
+// and nobody purges during the race, so the package has no reason to hold two objects for the session. Afterwards,
+// sequentially: the handles the two requests received are the object the cache holds, and that object agrees with the
+// stored record in data and user (the store encodes under its own mutex, so the last save holds the latest state).
+func (h *concH) loadRace(g0 *cgor) {
+	request := func(g *cgor, cookie string, create bool) (*sessions.Session, *respWriter, *http.Request) {
+		req, resp := newReq(0, cookie)
+		var s *sessions.Session
+		g.safe("Start", func() { s, _ = sessions.Start(resp, req, create) })
+		g.stat["requests"]++
+		return s, resp, req
+	}
+	g1, g2, g3 := h.newGor(), h.newGor(), h.newGor()
+	g1.done, g2.done, g3.done = 1, 1, 1
+	for it := 0; it < h.cfg.iters && !h.stopped(); it++ {
+		uid := fmt.Sprintf("u%d", it)
+		_, resp, _ := request(g0, "", true)
+		id0, _, _ := cookieOf(resp)
+		s, _, _ := request(g0, id0, false)
+		if s == nil || id0 == "" {
+			h.extra = append(h.extra, fmt.Sprintf("panic %d load-race: setup failed in iteration %d", g0.id, it))
+			continue
+		}
+		r := &respWriter{h: http.Header{}}
+		g0.safe("LogIn", func() { s.LogIn(&user{ID: uid}, false, r) })
+		id1, set, _ := cookieOf(r)
+		if !set {
+			continue
+		}
+		g0.safe("PurgeSessions", func() { sessions.PurgeSessions() })
+		s = nil
+		variant := []string{"refresh", "logout", "none"}[g0.rnd.Intn(3)]
+		setup := "user=" + variant
+		var ha, hb *sessions.Session
+		var wg sync.WaitGroup
+		start := make(chan struct{})
+		wg.Add(3)
+		go func() {
+			defer wg.Done()
+			<-start
+			if ha, _, _ = request(g1, id1, false); ha != nil {
+				g1.safe("Set", func() { ha.Set("a", fmt.Sprintf("a-%d", it)) })
+			}
+		}()
+		go func() {
+			defer wg.Done()
+			<-start
+			if hb, _, _ = request(g2, id0, false); hb != nil {
+				g2.safe("Set", func() { hb.Set("b", fmt.Sprintf("b-%d", it)) })
+			}
+		}()
+		go func() {
+			defer wg.Done()
+			<-start
+			switch variant {
+			case "refresh":
+				g3.safe("RefreshUser", func() { sessions.RefreshUser(&user{ID: uid}) })
+			case "logout":
+				g3.safe("LogOut", func() { sessions.LogOut(uid) })
+			}
+		}()
+		close(start)
+		wg.Wait()
+		g0.stat["load_iterations"]++
+		bad := func(format string, args ...interface{}) {
+			h.extra = append(h.extra, fmt.Sprintf("incoherent %d %s ", it, setup)+fmt.Sprintf(format, args...))
+			g0.stat["incoherent"]++
+		}
+		c := sessions.VerifCached(id1)
+		if ha == nil || hb == nil {
+			bad("a request presenting a valid ID got no session (current id: %v, replaced id: %v)", ha != nil, hb != nil)
+		} else if ha != hb {
+			bad("two concurrent requests for one cached session received two different objects")
+		}
+		if c != nil && ha != nil && c != ha {
+			bad("the cache holds another object for the session than the one the request on its current ID received")
+		}
+		if st := h.store.stored(id1); st != nil && c != nil {
+			fc, fs := sessions.VerifFields(c), sessions.VerifFields(st)
+			for _, key := range []string{"a", "b"} {
+				if valStr(fc.Data[key]) != valStr(fs.Data[key]) {
+					bad("cached object and stored record disagree on %q: %s vs %s", key, valStr(fc.Data[key]), valStr(fs.Data[key]))
+				}
+			}
+			if (fc.User == nil) != (fs.User == nil) {
+				bad("cached object and stored record disagree on the user: %s vs %s", renderUser(fc.User, false), renderUser(fs.User, false))
+			}
+		} else if c != nil {
+			bad("the session is cached but has no stored record")
+		}
+		if cur, resp, req := request(g0, id1, false); cur != nil {
+			g0.safe("Destroy", func() { cur.Destroy(resp, req) })
 		}
 	}
 }
